@@ -80,9 +80,20 @@ func c07(e *Env) {
 		rush = c.Choose("rushks", 5)
 	}
 	useChecked, failedUses := 0, 0
+	// prepared statements a client may EXECUTE: id and the token of its PREPARE
+	type c07prep struct {
+		id, rmid []byte
+	}
+	preps := make([][]c07prep, len(f.clients))
+	prepReqs := map[*world.ClientReq]bool{}
 	w.OnReply = func(req *world.ClientReq, rep *world.ClientReply) {
 		i := req.Client.ID - 1
 		s := st[i]
+		if rep.Frame != nil && prepReqs[req] {
+			if pr, ok := rep.Frame.Body.Message.(*message.PreparedResult); ok {
+				preps[i] = append(preps[i], c07prep{pr.PreparedQueryId, pr.ResultMetadataId})
+			}
+		}
 		if s.pending != req || rep.Frame == nil {
 			return
 		}
@@ -125,6 +136,22 @@ func c07(e *Env) {
 				if r.Token == a.Token {
 					cl = x
 				}
+			}
+		}
+		if a.OpCode == primitive.OpCodePrepare {
+			// a PREPARE the proxy sends on its own account (re-preparation for a later EXECUTE
+			// of a client that may have switched keyspace since) runs in the executing client's
+			// keyspace; only the client's own PREPARE, still unanswered, is judged here
+			own := false
+			for _, x := range f.clients {
+				for _, r := range x.Outstanding {
+					if r.Token == a.Token && prepReqs[r] {
+						own = true
+					}
+				}
+			}
+			if !own {
+				return
 			}
 		}
 		if a.Keyspace != want {
@@ -183,8 +210,37 @@ func c07(e *Env) {
 		}
 		tok := w.NewToken()
 		expectKS[tok] = s.ks
-		stt := world.DrawStmt(c, "'"+tok+"'", "t")
-		cl.Send("query", tok, world.QueryMsg(stt.Text, primitive.ConsistencyLevelOne), nil)
+		kind := c.Weighted("c07kind", []int{6, 1, 2, 1})
+		if len(preps[i]) == 0 && kind >= 2 {
+			kind = 1
+		}
+		switch kind {
+		case 0:
+			stt := world.DrawStmt(c, "'"+tok+"'", "t")
+			cl.Send("query", tok, world.QueryMsg(stt.Text, primitive.ConsistencyLevelOne), nil)
+		case 1:
+			// unqualified table: the statement resolves in the connection's keyspace
+			r := cl.Send("prepare", tok, &message.Prepare{Query: "SELECT * FROM t_" + tok + " WHERE k = ?"}, nil)
+			prepReqs[r] = true
+		case 2:
+			pp := preps[i][c.Choose("c07prep", len(preps[i]))]
+			var rm []byte
+			if cl.Version.SupportsResultMetadataId() {
+				rm = pp.rmid
+			}
+			cl.Send("execute", tok, world.ExecMsg(pp.id, rm, tok, primitive.ConsistencyLevelOne), nil)
+		case 3:
+			b := &message.Batch{Type: primitive.BatchTypeLogged, Consistency: primitive.ConsistencyLevelOne}
+			for j := 0; j < 1+c.Choose("c07bn", 3); j++ {
+				if c.Choose("c07bchild", 2) == 0 {
+					b.Children = append(b.Children, &message.BatchChild{Query: "INSERT INTO t (k, v) VALUES ('" + tok + "', 1)"})
+				} else {
+					pp := preps[i][c.Choose("c07prep", len(preps[i]))]
+					b.Children = append(b.Children, &message.BatchChild{Id: pp.id, Values: []*primitive.Value{primitive.NewValue([]byte(tok))}})
+				}
+			}
+			cl.Send("batch", tok, b, nil)
+		}
 	}
 	done := func() bool {
 		for i, cl := range f.clients {
